@@ -178,6 +178,8 @@ func callerSite() string {
 	var pcs [24]uintptr
 	n := runtime.Callers(3, pcs[:])
 	frames := runtime.CallersFrames(pcs[:n])
+	var out string
+	found := 0
 	for {
 		fr, more := frames.Next()
 		fn := fr.Function
@@ -185,13 +187,21 @@ func callerSite() string {
 			if i := strings.LastIndex(fn, "/"); i >= 0 {
 				fn = fn[i+1:]
 			}
-			return fn
+			if found == 0 {
+				out = fn
+			} else {
+				out += "<" + fn
+			}
+			found++
+			if found == 2 {
+				return out
+			}
 		}
 		if !more {
 			break
 		}
 	}
-	return ""
+	return out
 }
 
 // Image is a deep copy of the namespace: file contents by path plus the set of
